@@ -43,6 +43,7 @@ from typing_extensions import Never, NotRequired
 from pytools import UniqueNameGenerator
 
 from pytato.array import (
+    AdvancedIndexInNoncontiguousAxes,
     Array,
     ArrayOrScalar,
     AxisPermutation,
@@ -547,14 +548,28 @@ class NumpyCodegenMapper(CachedMapper[str, Never, []]):
                 assert isinstance(idx, Array)
                 return ast.Name(self.rec(idx))
 
+        i_adv_indices = [i for i, idx in enumerate(expr.indices)
+                         if not isinstance(idx, NormalizedSlice)]
+        # The advanced indices were separated by an ellipsis that stood for no
+        # axis: numpy needs to see it (and then every axis must be indexed
+        # explicitly).
+        needs_empty_ellipsis = (
+            isinstance(expr, AdvancedIndexInNoncontiguousAxes)
+            and i_adv_indices[-1] - i_adv_indices[0] + 1 == len(i_adv_indices))
+        if needs_empty_ellipsis:
+            last_non_trivial_index = expr.array.ndim - 1
+
+        elts = [_rec_idx(idx, dim)
+                for idx, dim in zip(
+                        expr.indices[:last_non_trivial_index+1],
+                        expr.array.shape,
+                        strict=False)]
+
+        if needs_empty_ellipsis:
+            elts.insert(i_adv_indices[0] + 1, ast.Constant(...))
+
         rhs = ast.Subscript(value=ast.Name(self.rec(expr.array)),
-                            slice=ast.Tuple(
-                                elts=[
-                                    _rec_idx(idx, dim)
-                                    for idx, dim in zip(
-                                            expr.indices[:last_non_trivial_index+1],
-                                            expr.array.shape,
-                                            strict=False)]))
+                            slice=ast.Tuple(elts=elts))
 
         return self._record_line_and_return_lhs(lhs, rhs)
 
